@@ -14,8 +14,10 @@
         KF_D20  application-sent SequenceReset without GapFillFlag and without PossDupFlag (journaled under its own number).
    The model describes the code WITH the repair of D12 (fixes/D12-resend-keeps-journal.patch): servicing a ResendRequest
    writes neither journal nor counters, PossDup copies and gap fills are not journaled; the former class KF_D12 is gone
-   (C09_resend_keeps_journal).  The D22 class (peer Logout never counted) and the D14 class (death between transport
-   write and journal write) do not break Stored_eq; they are exhibited by their own refuted theorems. *)
+   (C09_resend_keeps_journal); and WITH the round-3 repairs: an in-sequence peer Logout is counted and journaled (former
+   class D22: C09_peer_logout_counted, C09_accepted_counted), a ResendRequest that cannot be served does not leave the
+   state in RESENDREQ_HANDLING.  The D14 class (death between transport write and journal write) does not break
+   Stored_eq; it is exhibited by its own refuted theorem. *)
 From Coq Require Import ZArith List Bool.
 From AF Require Import Fix.Restart Lemmas.RestartL.
 Import ListNotations.
@@ -125,26 +127,34 @@ Theorem C09_crash_before_journal_refuted :
 Proof. exact crash_before_journal_refuted. Qed.
 Print Assumptions C09_crash_before_journal_refuted.
 
-(* D22: the peer sent frames 1 and 2 (Logon, Logout), both reached the endpoint in sequence, no operation is in a class,
-   Stored_eq holds - but the Logout was never counted: after the restart the peer's Logon numbered 3 is answered with a
-   ResendRequest and the session is not ACTIVE *)
-Theorem C09_peer_logout_uncounted_refuted :
-  exists r h, class_free h = true /\ inbound_seqs h = [1; 2] /\
-    let w := run (fresh r) h in
-    Stored_eq w /\ nin w = 2 /\ nin (restart w) = 2
-    /\ let w2 := run (restart w) (logon_ops r 3) in
-       has_resend (writes (log w2)) = true /\ st w2 = Awaiting.
-Proof. exact peer_logout_uncounted_refuted. Qed.
-Print Assumptions C09_peer_logout_uncounted_refuted.
+(* former D22 (repaired: an in-sequence Logout of the peer is counted and journaled before the session is torn down):
+   the peer sent 1 (Logon) and 2 (Logout); next_num_in is 3, stored 2; after the restart the peer's Logon numbered 3 is
+   accepted: ACTIVE, no ResendRequest *)
+Example C09_peer_logout_counted :
+  class_free h_d22 = true /\ inbound_seqs h_d22 = [1; 2] /\
+  let w := run (fresh Acceptor) h_d22 in
+  Stored_eq w /\ nin w = 3 /\ sin (jt w) = 2 /\ rin (jt w) = [1; 2] /\ st w = Disc /\ nin (restart w) = 3
+  /\ let w2 := run (restart w) (logon_ops Acceptor 3) in
+     has_resend (writes (log w2)) = false /\ st w2 = Active.
+Proof. exact peer_logout_counted_example. Qed.
+Print Assumptions C09_peer_logout_counted.
 
-(* the counterpart of D22: on an established connection (any state past NETWORK_CONN_ESTABLISHED) every in-sequence
-   application message, Heartbeat and TestRequest is counted and journaled under its own number *)
-Theorem C09_accepted_counted_partial : forall f w, Inv w -> plain_type (f_type f) = true -> f_seq f = nin w ->
+(* on an established connection (any state past NETWORK_CONN_ESTABLISHED) every in-sequence application message, Heartbeat,
+   TestRequest and Logout is counted and journaled under its own number; from ANY world satisfying the invariant *)
+Theorem C09_accepted_counted : forall f w, Inv w -> counted_type (f_type f) = true -> f_seq f = nin w ->
   is_disc (st w) = false -> cstate_eqb (st w) NCE = false ->
   let w' := run_op w (OIn f) in
   nin w' = nin w + 1 /\ sin (jt w') = nin w /\ Inv w'.
 Proof. exact accepted_counted. Qed.
-Print Assumptions C09_accepted_counted_partial.
+Print Assumptions C09_accepted_counted.
+
+(* ... and the Logout also ends the session *)
+Theorem C09_peer_logout_counted_general : forall f w, Inv w -> f_type f = TLogout -> f_seq f = nin w ->
+  is_disc (st w) = false -> cstate_eqb (st w) NCE = false ->
+  let w' := run_op w (OIn f) in
+  nin w' = nin w + 1 /\ sin (jt w') = nin w /\ Inv w' /\ is_disc (st w') = true.
+Proof. exact logout_counted. Qed.
+Print Assumptions C09_peer_logout_counted_general.
 
 (* a duplicate inbound row (gap fill onto its own number, then that number): the live counter advances, the journal does
    not, DuplicateSeqNoError escapes _process_message *)
